@@ -79,27 +79,27 @@ type bufRec struct {
 
 // childResult is the part of the observable record produced inside the child.
 type childResult struct {
-	Buffers       []bufRec         `json:"buffers"`
-	BufDigest     string           `json:"buf_digest"`
-	BufDigestNoPID string          `json:"buf_digest_without_pid"`
-	BufBytes      uint64           `json:"buf_bytes"`
-	TimeRunBits   uint64           `json:"time_after_program_bits"` // Engine.CurrentTime() when the program's last command returned
-	TimeDumpBits  uint64           `json:"time_after_dump_bits"`    // ... after the read-back copies
-	TimeEndBits   uint64           `json:"time_end_bits"`           // ... after Runner.Run() returned
-	Handoffs      int64            `json:"handoffs"`                // enqueue signals received by runAsync
-	Yields        map[string]int64 `json:"yields"`
-	HoldsWaited   int64            `json:"holds_waited"`
-	HoldsExpired  int64            `json:"holds_expired"`
-	NonQuiescent  int64            `json:"non_quiescent_injections"` // enqueue signal taken while the engine goroutine was running
-	Quiescent     bool             `json:"quiescent"`
-	DelaySchedule string           `json:"delay_schedule"` // hash of the delay decisions taken
-	Sleeps        int64            `json:"sleeps"`
-	Goscheds      int64            `json:"goscheds"`
-	EngineStalls  int64            `json:"engine_stalls"`
-	NotifyInEvent int64            `json:"completions_notified_inside_event"`
-	SQLite        string           `json:"sqlite"`
-	GoMaxProcs    int              `json:"gomaxprocs_seen"`
-	NumCPU        int              `json:"numcpu_seen"`
+	Buffers        []bufRec         `json:"buffers"`
+	BufDigest      string           `json:"buf_digest"`
+	BufDigestNoPID string           `json:"buf_digest_without_pid"`
+	BufBytes       uint64           `json:"buf_bytes"`
+	TimeRunBits    uint64           `json:"time_after_program_bits"` // Engine.CurrentTime() when the program's last command returned
+	TimeDumpBits   uint64           `json:"time_after_dump_bits"`    // ... after the read-back copies
+	TimeEndBits    uint64           `json:"time_end_bits"`           // ... after Runner.Run() returned
+	Handoffs       int64            `json:"handoffs"`                // enqueue signals received by runAsync
+	Yields         map[string]int64 `json:"yields"`
+	HoldsWaited    int64            `json:"holds_waited"`
+	HoldsExpired   int64            `json:"holds_expired"`
+	NonQuiescent   int64            `json:"non_quiescent_injections"` // enqueue signal taken while the engine goroutine was running
+	Quiescent      bool             `json:"quiescent"`
+	DelaySchedule  string           `json:"delay_schedule"` // hash of the delay decisions taken
+	Sleeps         int64            `json:"sleeps"`
+	Goscheds       int64            `json:"goscheds"`
+	EngineStalls   int64            `json:"engine_stalls"`
+	NotifyInEvent  int64            `json:"completions_notified_inside_event"`
+	SQLite         string           `json:"sqlite"`
+	GoMaxProcs     int              `json:"gomaxprocs_seen"`
+	NumCPU         int              `json:"numcpu_seen"`
 }
 
 // ---------------------------------------------------------------------------
@@ -294,7 +294,7 @@ type wrapper struct {
 	res   *childResult
 }
 
-func (w *wrapper) SelectGPU(g []int)  { w.inner.SelectGPU(g) }
+func (w *wrapper) SelectGPU(g []int) { w.inner.SelectGPU(g) }
 func (w *wrapper) SetUnifiedMemory() { w.inner.SetUnifiedMemory() }
 func (w *wrapper) Verify()           {}
 
